@@ -15,6 +15,8 @@ PROP = dict(
         dict(module="MCClientURL", cfg="MCClientURL_mut_memoscheme.cfg", expect_violation="SchemeHolds", timeout=300),
         # the "set by the caller" snapshot must include what the auth writer set
         dict(module="MCClientURL", cfg="MCClientURL_mut_earlysnapshot.cfg", expect_violation="QueryHolds", timeout=300),
+        # every entry point (direct, tracing transports) hands the runtime the operation's own scheme list
+        dict(module="MCClientURL", cfg="MCClientURL_mut_otelfirstscheme.cfg", expect_violation="SchemeHolds", timeout=300),
     ],
     level_text="ClientURL transcribes the tail of request.buildHTTP (url.Parse, path.Join, ReplaceAll+PathEscape in map order, "
                "reinstateSlash, re-parse by http.NewRequest, static-query merge) and pickScheme over byte strings, next to C10 stated "
@@ -34,6 +36,8 @@ PROP = dict(
          "template/value/query sequences under every base spelling; every 4th random case continues with 1-4 further random operations. "
          "Auth writers that set query parameters (client.APIKeyAuth in the query as operation AuthInfo and as Runtime.DefaultAuthentication) x "
          "static query parameters of colliding and other names in base path / pattern x the params writer's value (3 840 two-step cases). "
+         "Entry points: histories, query/auth, scheme and random cases build every operation through CreateHttpRequest, Submit, "
+         "WithOpenTelemetry().Submit and WithOpenTracing().Submit (recording RoundTripper) - one URL for all. "
          "Single-operation part: exhaustive part: 6 base spellings x all patterns of <=2 segments over an 8-segment pool (literals needing "
          "escapes, placeholders, mixed segments) x all values of <=1 (thorough <=2) atoms over a 12-byte class alphabet plus "
          "placeholder-like/dot/escape-like specials; all 3-level query fixings of two keys; all scheme lists <=3 over {http,https,ws} "
